@@ -24,6 +24,9 @@ def fnum(x):
 
 
 def run(ctx):
+    from . import e2e_rules as _e2e
+
+    ctx.attempt(_e2e.geometry_rule, ctx, 'R7.E1')
     from ..shared import shared_container_rule as _shared_container_rule
 
     ctx.attempt(_shared_container_rule, ctx, "R7.8", scope=lambda f, _s=("EasyFEA.FEM._gauss", "EasyFEA.FEM._group_elem"): f.module.name.startswith(_s), min_instances=50)
